@@ -22,7 +22,7 @@ func init() {
 	register(func() {
 		engine.Register(&engine.Check{
 			ID: "C15", Level: "model_checking",
-			Rule:        "documents holding strings and keys of 1, 2, 63, 64, 65 and 200 bytes (with and without escapes / multi-byte runes) in the three wire formats x chunk schedules (every cut set for short documents, deviation-bounded beyond, single bytes, strides; the chunking decides whether a string is handed over from the caller's buffer, the parser's internal buffer or fresh memory) x entry points {Parser.Write, ParseReader, reader Decoder (whose read buffer is reused by construction), byte-slice Decoder} x targets {interface{}, map[string]string, []string, struct with string fields, map[string]interface{} with key cache} x a follow-up document of equal or different length that reuses the buffers x ONE garbage collection at event boundary g for every g (thorough: also at instrumented points inside the library); the harness hands every chunk out in a scratch slice and overwrites it with 0xAA as soon as Write/Read returns; built with checkptr, run with GODEBUG=clobberfree=1, automatic GC off (a collection happens only where the explorer puts one); oracle: the target rendered right after the first document == after scribbling == after the follow-up document == after a final forced GC == the result of a clean whole-buffer run; the fold side (Fold -> encoder) under the same GC schedule writes the same bytes; a case = (document, target, entry, schedule, GC position)",
+			Rule:        "documents holding strings and keys of 1, 2, 63, 64, 65 and 200 bytes (with and without escapes / multi-byte runes) in the three wire formats x chunk schedules (every cut set for short documents, deviation-bounded beyond, single bytes, strides; the chunking decides whether a string is handed over from the caller's buffer, the parser's internal buffer or fresh memory) x entry points {Parser.Write, ParseReader, reader Decoder (whose read buffer is reused by construction), byte-slice Decoder} x targets {interface{}, map[string]string, []string, struct with string fields, map[string]interface{} with key cache} x a follow-up document of equal or different length that reuses the buffers x ONE garbage collection at event boundary g for every g (thorough: also at every 11th instrumented point - function entry or loop iteration - inside the library); the harness hands every chunk out in a scratch slice and overwrites it with 0xAA as soon as Write/Read returns; built with checkptr, run with GODEBUG=clobberfree=1, automatic GC off (a collection happens only where the explorer puts one); oracle: the target rendered right after the first document == after scribbling == after the follow-up document == after a final forced GC == the result of a clean whole-buffer run; the fold side (Fold -> encoder) under the same GC schedule writes the same bytes; a case = (document, target, entry, schedule, GC position)",
 			Assumptions: []string{"an alias is visible only if the aliased bytes are overwritten afterwards: the harness overwrites every buffer it owns and forces reuse of internal buffers with follow-up tokens of at least the same length", "memory safety is observed (checkptr, clobberfree, value comparison), not proved"},
 			Families:    c15Families,
 			Bounds: func(tier string) map[string]interface{} {
@@ -286,9 +286,10 @@ func c15UnfoldT(x *engine.Exec, cd *Codec, doc, next []byte, entry, tk, full int
 	gcAt := x.Dev(E+1) - 1 // -1: no GC
 	stepGC := int64(0)
 	if x.Tier == "thorough" && gcAt < 0 {
-		// a collection at an instrumented point inside the library (every 97th step of the run)
-		if k := x.Dev(8); k > 0 {
-			stepGC = int64(k) * 97
+		// a collection at an instrumented point inside the library: every 11th function entry / loop iteration of the run
+		// (the clean run's step count bounds the positions; its two unfolders and the recorder make it an upper bound)
+		if k := x.Dev(int(clean.Steps/11) + 1); k > 0 {
+			stepGC = int64(k) * 11
 		}
 	}
 	t1, cacheCap := mkTarget()
